@@ -287,7 +287,9 @@ def mkGen (reacts : List React) (name : String) (hasAlias : Bool) : Gen :=
       let renders : List Str :=
         if r.render == 'v' then
           (if st.2 then [] else [L ("// helper of " ++ name ++ "\n")]) ++ [L ("var _" ++ name ++ "_" ++ S t.name ++ "_" ++ toString n ++ " = 1\n")]
-        else if r.render == 'x' then [L "func {\n"] else []
+        else if r.render == 'x' then [L "func {\n"]
+        else if r.render == 'b' then [L "// custom body\n"]
+        else if r.render == 'm' then [L "// map body\n"] else []
       let defers : List DeferCb := match r.deferK with
         | some 'd' => [⟨0, [L ("// deferred " ++ name ++ " " ++ S t.name ++ "\n")], false⟩]
         | some 'e' => [⟨0, [], true⟩]
